@@ -269,7 +269,7 @@ def catalogues():
     if _cats is None:
         from .tlaval import parse_value
         from .tlc import run_tlc
-        r = run_tlc("MC_GeoFrameCat", cfg=dict(constants={}), timeout=300)
+        r = run_tlc("MC_GeoFrameCat", cfg=dict(constants={}), timeout=3000)
         out = {}
         for chunk in r.printed():
             c = chunk.replace(" ", "").replace("\n", "")
